@@ -719,4 +719,125 @@ theorem manifestPathOf_manSet (mans : List (MPath × Bytes)) (want : MPath) (v :
     simp only [manSet, hany, Bool.false_eq_true, if_false]
     exact manifestPathOf_insertNew want v mans hall
 
+/-! ## names are confined to manifests/ -/
+
+/-- a path component that `filepath.Join` keeps as one directory entry below its parent: non-empty, does not
+    begin with `.` (so it is neither `.` nor `..`), contains no `/` -/
+def SafeC (s : Bytes) : Prop := s ≠ [] ∧ s.head? ≠ some 0x2e ∧ ∀ c ∈ s, c ≠ cSlash
+
+theorem SafeC.ne_dot {s : Bytes} (h : SafeC s) : s ≠ [0x2e] ∧ s ≠ [0x2e, 0x2e] := by
+  refine ⟨?_, ?_⟩ <;> intro e <;> subst e <;> exact h.2.1 rfl
+
+theorem isAlnumU_not_special (c : UInt8) (h : isAlnumU c = true) : c ≠ 0x2e ∧ c ≠ cSlash := by
+  refine ⟨?_, ?_⟩ <;> intro e <;> subst e <;> revert h <;> decide
+
+theorem validRest_noSlash (kind : Part) : ∀ (s : Bytes), validRest kind s = true → ∀ c ∈ s, c ≠ cSlash := by
+  intro s
+  induction s with
+  | nil => intro _ c hc; cases hc
+  | cons x xs ih =>
+    intro h c hc
+    simp only [validRest, Bool.and_eq_true] at h
+    rcases List.mem_cons.mp hc with rfl | hm
+    · intro e
+      subst e
+      have h1 := h.1
+      cases kind <;> exact absurd h1 (by decide)
+    · exact ih h.2 c hm
+
+/-- **`isValidPart` ⇒ safe component** (non-empty parts; emptiness is tested by `IsFullyQualified`) -/
+theorem isValidPart_safe (kind : Part) (s : Bytes) (hne : s ≠ []) (h : isValidPart kind s = true) : SafeC s := by
+  cases s with
+  | nil => exact absurd rfl hne
+  | cons c cs =>
+    simp only [isValidPart, Bool.and_eq_true] at h
+    obtain ⟨_, hc, hr⟩ := h
+    have hs := isAlnumU_not_special c hc
+    refine ⟨by simp, ?_, ?_⟩
+    · simp only [List.head?_cons, ne_eq, Option.some.injEq]; exact hs.1
+    · intro x hx
+      rcases List.mem_cons.mp hx with rfl | hm
+      · exact hs.2
+      · exact validRest_noSlash kind cs hr x hm
+
+def SafePath (p : MPath) : Prop := ∃ h n m t, p = [h, n, m, t] ∧ SafeC h ∧ SafeC n ∧ SafeC m ∧ SafeC t
+
+/-- **`nameToPath` is confined**: whatever the string, it is refused or yields exactly four safe components,
+    i.e. `manifests/<h>/<n>/<m>/<t>` is a file four levels below `manifests/` and nowhere else -/
+theorem nameToPath_safe (name : Bytes) (p : MPath) (h : nameToPath name = some p) : SafePath p := by
+  unfold nameToPath at h
+  simp only at h
+  split at h
+  · next hfq =>
+    cases h
+    simp only [Name.isFullyQualified, Name.isValid, Bool.and_eq_true, Bool.or_eq_true, Bool.not_eq_true',
+      List.isEmpty_eq_false_iff] at hfq
+    obtain ⟨⟨⟨⟨⟨⟨⟨vh, vn⟩, vt⟩, _, vm⟩, hh⟩, hn⟩, hm⟩, ht⟩ := hfq
+    have nh : (parseName name).h.isEmpty = false := by simpa using hh
+    have nn : (parseName name).n.isEmpty = false := by simpa using hn
+    have nt : (parseName name).t.isEmpty = false := by simpa using ht
+    have oh : isValidPart .host (parseName name).h = true := by
+      rcases vh with e | e
+      · rw [nh] at e; cases e
+      · exact e
+    have on : isValidPart .ns (parseName name).n = true := by
+      rcases vn with e | e
+      · rw [nn] at e; cases e
+      · exact e
+    have ot : isValidPart .tag (parseName name).t = true := by
+      rcases vt with e | e
+      · rw [nt] at e; cases e
+      · exact e
+    exact ⟨_, _, _, _, rfl, isValidPart_safe _ _ hh oh, isValidPart_safe _ _ hn on,
+      isValidPart_safe _ _ hm vm, isValidPart_safe _ _ ht ot⟩
+  · cases h
+
+def AllSafe (mans : List (MPath × Bytes)) : Prop := ∀ e ∈ mans, SafePath e.1
+
+theorem manifestPathOf_safe (mans : List (MPath × Bytes)) (want : MPath) (hm : AllSafe mans)
+    (hw : SafePath want) : SafePath (manifestPathOf mans want) := by
+  unfold manifestPathOf
+  split
+  · next e he => exact hm e (List.mem_of_find?_eq_some he)
+  · exact hw
+
+theorem manInsertNew_mem (p : MPath) (v : Bytes) : ∀ (mans : List (MPath × Bytes)) (e : MPath × Bytes),
+    e ∈ manInsertNew p v mans → e = (p, v) ∨ e ∈ mans := by
+  intro mans
+  induction mans with
+  | nil => intro e he; simp [manInsertNew] at he; exact Or.inl he
+  | cons x xs ih =>
+    intro e he
+    unfold manInsertNew at he
+    split at he
+    · rcases List.mem_cons.mp he with h | h
+      · exact Or.inl h
+      · exact Or.inr h
+    · rcases List.mem_cons.mp he with h | h
+      · exact Or.inr (h ▸ List.mem_cons_self)
+      · rcases ih e h with h' | h'
+        · exact Or.inl h'
+        · exact Or.inr (List.mem_cons_of_mem _ h')
+
+/-- writing or removing a manifest at a safe path keeps every manifest at a safe path -/
+theorem manSet_safe (mans : List (MPath × Bytes)) (p : MPath) (v : FileSt) (hm : AllSafe mans)
+    (hp : SafePath p) : AllSafe (manSet mans p v) := by
+  intro e he
+  unfold manSet at he
+  cases v with
+  | none =>
+    simp only [List.mem_filter] at he
+    exact hm e he.1
+  | some b =>
+    simp only at he
+    split at he
+    · simp only [List.mem_map] at he
+      obtain ⟨x, hx, rfl⟩ := he
+      split
+      · exact hp
+      · exact hm x hx
+    · rcases manInsertNew_mem p b mans e he with rfl | h
+      · exact hp
+      · exact hm e h
+
 end OllamaVerif.BlobCache
